@@ -108,7 +108,7 @@ def main():
     run = Run("C20", tier)
     run.rule = ("file sets {2 .lp}, {3 .lp}, {2 .lp, .ug}, {.spec, 1-2 .lp, .ug}, {... + .po}, {... + notes.txt, README.md}, {mixed-case names B.lp, a.lp, Z.ug, t.ug}: ALL permutations of the argument list x each file given directly or via a "
                 "directory (all groupings of up to two directories) for strong and external equivalence with --no-proof-search --save-problems; oracle: the emitted problem files equal those of the canonical "
-                "call whose roles come from the reference rule (extension buckets; .lp in argument order, file-name order inside a directory); swapping the two programs of a strong task maps forward onto "
+                "call whose roles come from the reference rule (extension buckets; .lp in argument order, file-name order inside a directory); swapping the two programs of a strong task, and of an external task over two programs with distinct private predicates, maps forward onto "
                 "backward with axioms and conjectures exchanged; non-trivial = distinct emitted problem sets")
     base = scratch("c20_")
     try:
@@ -203,6 +203,36 @@ def main():
                 run.observe(("swap", a, b, tuple(flags), len(p1)))
                 if f1 != b2 or b1 != f2 or not p1:
                     run.violation("swap_does_not_exchange_directions", {"programs": [a, b], "flags": flags, "forward_ab": [sorted(x)[:3] for x in f1], "backward_ba": [sorted(x)[:3] for x in b2]})
+        # the same for external equivalence of two programs (distinct private predicates, so that the
+        # renaming of clashing private predicates does not depend on the side)
+        ext_pairs = [("big(X) :- in(X), X > 1. out(X) :- big(X).\n", "small(X) :- in(X), X <= 1. out(X) :- in(X), not small(X).\n"),
+                     ("out(X) :- in(X), X > 1.\n", "small(X) :- in(X), X <= 1. out(X) :- in(X), not small(X).\n"),
+                     ("big(X) :- in(X), X > 1. out(X) :- big(X).\n", "out(X) :- in(X), not in(X+1).\n")]
+        for pa, pb in ext_pairs:
+            for flags in [[], ["--decomposition", "independent"], ["--no-simplify"], ["--no-eq-break"]]:
+                d = scratch("c20x_")
+                try:
+                    open(os.path.join(d, "a.lp"), "w").write(pa); open(os.path.join(d, "b.lp"), "w").write(pb)
+                    shutil.copy(os.path.join(flat, "t.ug"), os.path.join(d, "t.ug"))
+                    _, p1, _ = problems_of(anthem, ["--equivalence", "external"] + flags + ["a.lp", "b.lp", "t.ug"], d)
+                    _, p2, _ = problems_of(anthem, ["--equivalence", "external"] + flags + ["b.lp", "a.lp", "t.ug"], d)
+                finally:
+                    shutil.rmtree(d, ignore_errors=True)
+                run.states += 1; run.transitions += len(p1) + len(p2)
+                def fam(p, direction):
+                    ax, cj = set(), set()
+                    for name, text in p.items():
+                        if name.startswith(direction):
+                            for role, body in strip_names(text):
+                                (ax if role == "axiom" else cj).add(body)
+                    return ax - cj, cj
+                f1, b1 = fam(p1, "forward"), fam(p1, "backward")
+                f2, b2 = fam(p2, "forward"), fam(p2, "backward")
+                run.observe(("swap-external", pa, pb, tuple(flags), len(p1)))
+                if f1 != b2 or b1 != f2 or not p1:
+                    run.violation("swap_does_not_exchange_directions|external", {"programs": [pa, pb], "flags": flags,
+                                  "forward_ab_axioms_only_there": sorted(f1[0] - b2[0])[:3], "backward_ba_axioms_only_there": sorted(b2[0] - f1[0])[:3],
+                                  "forward_ab_conjectures_only_there": sorted(f1[1] - b2[1])[:3], "backward_ba_conjectures_only_there": sorted(b2[1] - f1[1])[:3]})
         run.sample({"equivalence": "external", "arguments": ["d1", "t.ug"], "directories": {"d1": ["m.lp", "k.lp"]}, "meaning": "m.lp and k.lp given through directory d1: k.lp is the specification (file-name order), m.lp the program"})
     finally:
         shutil.rmtree(base, ignore_errors=True)
